@@ -376,6 +376,13 @@ class Interp:
     def st_FunctionDef(self, st):
         fi = FuncInfo(st.name, st, self.frames[-1].module, None)
         fi.decorators = [("other", ast.unparse(d)) for d in st.decorator_list]
+        # defaults of a nested function are evaluated when the def statement runs, in the enclosing scope
+        fi.default_values = {}
+        for pn, dn in fi.defaults.items():
+            try:
+                fi.default_values[pn] = self.eval(dn)
+            except Unsupported:
+                pass
         self.frames[-1].env[st.name] = VFunc(fi, closure=self.frames[-1])
 
     def st_Assert(self, st):
@@ -1233,7 +1240,9 @@ class Interp:
         # defaults evaluated in the defining module's scope
         for p in params + func.kwonly:
             if p not in env:
-                if p in func.defaults:
+                if p in getattr(func, "default_values", {}):
+                    env[p] = func.default_values[p]
+                elif p in func.defaults:
                     fr = Frame(None, func.module, {})
                     self.frames.append(fr)
                     try:
